@@ -6,6 +6,7 @@ import (
 	"math/rand"
 	"net/url"
 	"path/filepath"
+	"reflect"
 	"regexp"
 	"strings"
 	"testing"
@@ -119,6 +120,7 @@ type c13Config struct {
 	domains  []string // the allowed_redirect_domains strings AS CONFIGURED (what goes into the YAML file)
 	patterns []string
 	public   bool   // no client_secret: a public (PKCE) client
+	knobs    bool   // every other option of the client record switched on (found by reflection)
 	form     string // for the odd-form clients: the shape of the single entry
 	host     string // for the odd-form clients: the host name the entry was built from
 }
@@ -154,7 +156,7 @@ func c13FormConfigs() []c13Config {
 	var out []c13Config
 	for hi, h := range c13FormHosts {
 		for fi, f := range c13Forms {
-			out = append(out, c13Config{name: fmt.Sprintf("form-%s-%d", f.name, hi), domains: []string{f.build(h)}, public: (hi+fi)%2 == 1, form: f.name, host: h})
+			out = append(out, c13Config{name: fmt.Sprintf("form-%s-%d", f.name, hi), domains: []string{f.build(h)}, public: (hi+fi)%2 == 1, knobs: (hi+fi)%4 < 2, form: f.name, host: h})
 		}
 	}
 	return out
@@ -339,7 +341,7 @@ func lastLabelNumeric(h string) bool {
 }
 
 func TestVerif_C13(t *testing.T) {
-	res := newVerifResult("redirect_uri strings from an adversarial URL grammar (scheme x userinfo x host x port x path x query, biased to one defect per URL; 2200 quick / 40000 thorough, plus a fixed list) x 12 client configurations (domains only, patterns only, both, none, leading-dot domain, two domains, empty domain, unanchored pattern, and four with patterns the regexp library refuses: alone, with domains, before and after a usable one); CanRedirectToURL, CorsOriginAllowed, generic CORS check and GET /idp/oauth2/authorize; non-trivial = url.Parse accepted the string with scheme https; distinct by (url, verdict vector)")
+	res := newVerifResult("redirect_uri strings from an adversarial URL grammar (scheme x userinfo x host x port x path x query, biased to one defect per URL; 2200 quick / 40000 thorough, plus a fixed list) x 12 client configurations x {client with a secret, public client} x {every other client option found by reflection on, off} (domains only, patterns only, both, none, leading-dot domain, two domains, empty domain, unanchored pattern, and four with patterns the regexp library refuses: alone, with domains, before and after a usable one); CanRedirectToURL, CorsOriginAllowed, generic CORS check and GET /idp/oauth2/authorize; non-trivial = url.Parse accepted the string with scheme https; distinct by (url, verdict vector)")
 	baseConfigs := []c13Config{
 		{name: "domains", domains: []string{"example.com"}, patterns: nil},
 		{name: "patterns", domains: nil, patterns: []string{`^https://[^/@?#\\]*\.example\.com(:[0-9]+)?(/[^?#]*)?$`}},
@@ -356,23 +358,54 @@ func TestVerif_C13(t *testing.T) {
 		{name: "unusable-then-good", domains: []string{"example.com"}, patterns: []string{`(?<open`, `^https://app\.example\.com(/[^?#]*)?$`}},
 		{name: "good-then-unusable", domains: []string{"example.com"}, patterns: []string{`^https://app\.example\.com(/[^?#]*)?$`, `(?=x)`}},
 	}
-	// every configuration once for a client with a secret and once for a public (secret-less, PKCE) client
+	// every configuration for a client with a secret and for a public (secret-less, PKCE) client, each with every
+	// other option of the client record switched on and switched off
 	var configs []c13Config
-	configs = append(configs, baseConfigs...)
-	for _, cf := range baseConfigs {
-		pc := cf
-		pc.name, pc.public = cf.name+"/public", true
-		configs = append(configs, pc)
+	for _, v := range []struct {
+		suffix        string
+		public, knobs bool
+	}{{"", false, true}, {"/public", true, true}, {"/plain", false, false}, {"/public/plain", true, false}} {
+		for _, cf := range baseConfigs {
+			pc := cf
+			pc.name, pc.public, pc.knobs = cf.name+v.suffix, v.public, v.knobs
+			configs = append(configs, pc)
+		}
 	}
 	// clients whose single domain entry is written in an odd form (URL form, upper case, dots, spaces, wildcard)
 	formConfigs := c13FormConfigs()
+	// the other options of the client record are found at run time: every bool field is set to cf.knobs, every
+	// string field other than the id and the secret gets a plausible URL when cf.knobs is set
+	knobValues := func(cl *OpenIDConnectClientConfig, on bool) (bools []bool) {
+		v := reflect.ValueOf(cl).Elem()
+		for i := 0; i < v.NumField(); i++ {
+			f := v.Type().Field(i)
+			switch {
+			case f.Type.Kind() == reflect.Bool:
+				v.Field(i).SetBool(on)
+				bools = append(bools, on)
+			case f.Type.Kind() == reflect.String && f.Name != "ClientID" && f.Name != "ClientSecret" && on:
+				v.Field(i).SetString("https://native.example.net/")
+			}
+		}
+		return
+	}
+	optionsOf := func(cf c13Config) string {
+		var cl OpenIDConnectClientConfig
+		var l []string
+		for _, b := range knobValues(&cl, cf.knobs) {
+			l = append(l, coqBool(b))
+		}
+		return "[" + strings.Join(l, ";") + "]"
+	}
 	clientOf := func(cf c13Config) OpenIDConnectClientConfig {
 		secret := "s3cret"
 		if cf.public {
 			secret = ""
 		}
-		return OpenIDConnectClientConfig{ClientID: cf.name, ClientSecret: secret,
-			AllowedRedirectDomains: cf.domains, AllowedRedirectURLRE: cf.patterns, AllowClientChosenAudiences: true}
+		cl := OpenIDConnectClientConfig{}
+		knobValues(&cl, cf.knobs)
+		cl.ClientID, cl.ClientSecret, cl.AllowedRedirectDomains, cl.AllowedRedirectURLRE = cf.name, secret, cf.domains, cf.patterns
+		return cl
 	}
 	env := verifSetup(t, func(c *AppConfigFile, dir string) {
 		c.Base.AllowedAuthBackendsForWebUI = []string{"password"}
@@ -409,7 +442,7 @@ func TestVerif_C13(t *testing.T) {
 		if pkce != cf.public {
 			t.Fatalf("client %s: public=%v but ClientCanDoPKCEAuth=%v", cf.name, cf.public, pkce)
 		}
-		loaderObs = append(loaderObs, fmt.Sprintf("({| rc_public := %s; configured_domains := [%s] |}, [%s])", coqBool(cf.public), strings.Join(conf, ";"), strings.Join(got, ";")))
+		loaderObs = append(loaderObs, fmt.Sprintf("({| rc_public := %s; rc_options := %s; configured_domains := [%s] |}, [%s])", coqBool(cf.public), optionsOf(cf), strings.Join(conf, ";"), strings.Join(got, ";")))
 	}
 	cookie := env.cookie("alice", AuthTypePassword)
 	urls := c13URLs(verifThorough())
@@ -449,7 +482,7 @@ func TestVerif_C13(t *testing.T) {
 			verdicts = append(verdicts, obsCoq)
 			remList = append(remList, "["+strings.Join(pres, ";")+"]")
 			corsList = append(corsList, coqBool(cors))
-			cs := map[string]interface{}{"redirect_uri": raw, "client": cf.name}
+			cs := map[string]interface{}{"redirect_uri": raw, "client": cf.name, "public_client": cf.public, "other_options_on": cf.knobs}
 			if ok {
 				anyAllowed = true
 				key := ""
@@ -474,7 +507,7 @@ func TestVerif_C13(t *testing.T) {
 				res.hit(verifHit{Key: "C13:cors:" + cf.name, Oracle: "CORS origin check accepts a foreign origin", What: fmt.Sprintf("client %s accepts origin %q (browser host %q)", cf.name, raw, view.host), Case: cs})
 			}
 			// end to end for a sample
-			if ui < 250 || ok {
+			if ui < 150 || ok {
 				q := url.Values{}
 				q.Set("response_type", "code")
 				q.Set("client_id", cf.name)
@@ -530,7 +563,7 @@ func TestVerif_C13(t *testing.T) {
 				obsCoq = "None"
 			}
 			cors, _ := client.CorsOriginAllowed(raw)
-			cs := map[string]interface{}{"redirect_uri": raw, "client": cf.name, "configured_domains": cf.domains, "public_client": cf.public}
+			cs := map[string]interface{}{"redirect_uri": raw, "client": cf.name, "configured_domains": cf.domains, "public_client": cf.public, "other_options_on": cf.knobs}
 			if ok {
 				res.bump("form_allowed")
 				key := ""
@@ -613,7 +646,7 @@ func TestVerif_C13(t *testing.T) {
 		for _, d := range cf.domains {
 			ds = append(ds, coqPacked([]byte(d)))
 		}
-		return fmt.Sprintf("{| rc_public := %s; configured_domains := [%s] |}", coqBool(cf.public), strings.Join(ds, ";"))
+		return fmt.Sprintf("{| rc_public := %s; rc_options := %s; configured_domains := [%s] |}", coqBool(cf.public), optionsOf(cf), strings.Join(ds, ";"))
 	}
 	sb.WriteString("Definition configs : list (rclient * nat) := [")
 	for i, cf := range configs {
@@ -655,7 +688,7 @@ func TestVerif_C13(t *testing.T) {
 		vparts = append(vparts, fmt.Sprintf("mismatches_from c13_viol %s %d", name, i))
 		lparts = append(lparts, "length "+name)
 	}
-	sb.WriteString("Definition dflt_client : rclient := {| rc_public := false; configured_domains := [] |}.\n")
+	sb.WriteString("Definition dflt_client : rclient := {| rc_public := false; rc_options := []; configured_domains := [] |}.\n")
 	sb.WriteString("Definition c13_form_bad (c : nat * option parsed * option bool * bool) : bool :=\n  let '(i, p, obs, cors) := c in let cl := nth i fconfigs dflt_client in\n  negb (Nat.ltb i (length fconfigs)) || negb (ob_eqb (can_redirect_c cl [] p) obs) || negb (Bool.eqb (cors_allowed_c cl p) cors).\n")
 	sb.WriteString("Definition c13_form_viol (c : nat * option parsed * option bool * bool) : bool :=\n  let '(i, p, obs, cors) := c in let cl := nth i fconfigs dflt_client in\n  match obs with Some true => negb (ob_eqb (can_redirect_c cl [] p) (Some true)) | _ => false end || (cors && negb (cors_allowed_c cl p)).\n")
 	var fm, fv []string
